@@ -21,7 +21,10 @@ from tree.list_files (ordered by the tree). as_sha1 hashes as_text_lines() and a
 forms derive from the one line list. The long/short headers of the three classes are pairwise distinct.
 Added while testing against seeded changes: Also: _get_entries has a single, format-independent source; the commit
 timestamp is rounded to the 1 ms resolution revisions are serialised with.
-Does not decide: injectivity of the text encoding (escaping of paths and values).
+attested-text-unaltered: the rendering methods (everything reachable from as_text_lines inside the module) only decode/
+encode, escape with replace(), split into lines and format the values they render — no strip, case folding, path
+normalisation or slicing on the way.
+Does not decide: injectivity of the escaping itself (replace() tables), str.splitlines() treating \x0c etc. as line ends.
 """
 REV_FIELDS = ["revision_id", "committer", "timestamp", "timezone", "parent_ids", "message", "revprops"]
 ENTRY_FIELDS = {"kind", "file_id", "text_sha1", "symlink_target"}
@@ -165,8 +168,53 @@ def run(ctx):
     ctx.check("timestamp-resolution", f"{RP}:CommitBuilder.__init__", bool(tsv) and all(isinstance(v, ast.Call) and norm(v.func) == "round" and len(v.args) == 2 and norm(v.args[1]) == "3" for v in tsv), "the commit timestamp is restricted to the 1 ms resolution revisions are serialised with", construct="; ".join(norm(v) for v in tsv), message="the commit builder keeps a timestamp with more than millisecond resolution: the in-memory revision (and its testament, e.g. for signing) differs from the revision read back from the repository, which was serialised with 3 decimals")
     ctx.sample({"revision_fields_in_output": sorted(got), "entry_fields": sorted(ef), "strict_entry_fields": sorted(sf)})
 
+    # ---- attested text reaches the output unaltered (no lossy normaliser on the way) ------------------------------
+    # In the methods that render the testament (everything reachable from as_text_lines inside the module) an attested
+    # value is only decoded/encoded, escaped with replace(), split into lines and formatted.  Any other operation on the
+    # way (strip/rstrip, case folding, path normalisation, slicing …) maps different field values to the same text: the
+    # testament no longer changes whenever the attested field changes.
+    mod = repo.module(TF)
+    fns = mod.functions()
+    render, todo = set(), ["Testament.as_text_lines"]
+    classes = [q for q in mod.classes()]
+    while todo:
+        q = todo.pop()
+        if q in render or q not in fns:
+            continue
+        render.add(q)
+        for c in calls_in(fns[q]):
+            d = norm(c.func)
+            if d.startswith("self.") or d.split(".")[0] in classes:
+                m_ = d.split(".", 1)[1]
+                todo += [f"{k}.{m_}" for k in classes if f"{k}.{m_}" in fns]
+    ctx.require(len(render) >= 5, f"{TF}: only {len(render)} rendering methods found from Testament.as_text_lines")
+    OK_METHODS = {"decode", "encode", "replace", "splitlines", "format", "join", "items", "append", "extend", "list_files"}
+    OK_NAMES = {"sorted", "isinstance", "str", "len", "ValueError", "AssertionError", "TypeError", "contains_linebreaks", "contains_whitespace", "sha_strings", "list", "tuple", "iter", "enumerate"}
+    n_calls = 0
+    for q in sorted(render):
+        f = fns[q]
+        aliases = {norm(s_.targets[0]) for s_ in walk_own(f) if isinstance(s_, ast.Assign) and isinstance(s_.value, ast.Attribute) and s_.value.attr in ("append", "extend")}
+        bad = []
+        for c in calls_in(f):
+            n_calls += 1
+            d = norm(c.func)
+            if d.startswith("self.") or d.split(".")[0] in classes or d in OK_NAMES or d in aliases:
+                continue
+            if isinstance(c.func, ast.Attribute) and c.func.attr in OK_METHODS:
+                continue
+            bad.append(f"L{c.lineno}:{norm(c)[:60]}")
+        for n in walk_own(f):
+            if isinstance(n, ast.Subscript) and isinstance(n.slice, ast.Slice):
+                v = n.value
+                if isinstance(v, ast.Call) and (norm(v.func).startswith("self.") or norm(v.func).split(".")[0] in classes):
+                    continue  # trimming the terminator off a line another rendering method has just formatted
+                bad.append(f"L{n.lineno}:{norm(n)[:60]} (slice)")
+        ctx.check("attested-text-unaltered", f"{TF}:{q}", not bad, f"{q} only decodes, escapes, splits and formats the values it renders", construct="; ".join(bad), message=f"{q} passes a rendered value through {bad}: an operation outside decode/encode/replace/splitlines/format maps different values of an attested field (message, property value, path, symlink target) to the same testament text — a change of that field no longer changes the testament")
+    ctx.extra["render_calls"] = n_calls
 
 MUTANTS = [
+    Mutant("message lines lose trailing whitespace", TF, '        for l in self.message.splitlines():\n            a(f"  {l}\\n")\n', '        for l in self.message.splitlines():\n            a(f"  {l.rstrip()}\\n")\n', expect="attested-text-unaltered"),
+    Mutant("paths normalised before escaping", TF, '        return path.replace("\\\\", "/").replace(" ", "\\\\ ")\n\n    def _entry_to_line', '        import posixpath\n\n        return posixpath.normpath(path.replace("\\\\", "/")).replace(" ", "\\\\ ")\n\n    def _entry_to_line', expect="attested-text-unaltered"),
     Mutant("commit timestamp keeps full resolution", "breezy/repository.py", "        self._timestamp = round(timestamp, 3)\n", "        self._timestamp = timestamp\n", expect="timestamp-resolution"),
     Mutant("CHK inventories walked through another iterator", TF, "    def _get_entries(self):\n        return (", "    def _get_entries(self):\n        inv = getattr(self.tree, \"root_inventory\", None)\n        if type(inv).__name__ == \"CHKInventory\":\n            return iter(sorted(inv.iter_entries_by_dir()))\n        return (", expect="entries-source"),
     Mutant("committer line dropped", TF, "        a(f\"committer: {self.committer}\\n\")\n", "", expect="field-reaches-output"),
